@@ -259,6 +259,30 @@ func pruneCache() {
 		return nil
 	})
 	if total > 8<<30 {
-		os.RemoveAll(filepath.Join(BuildDir(), "gocache"))
+		// only entries that no build has touched for three hours (the go command refreshes the time stamp of an
+		// entry it uses at most once per hour): other checks may be compiling right now
+		cutoff := time.Now().Add(-3 * time.Hour)
+		filepath.WalkDir(filepath.Join(BuildDir(), "gocache"), func(p string, d fs.DirEntry, err error) error {
+			if err == nil && !d.IsDir() {
+				if i, e := d.Info(); e == nil && i.ModTime().Before(cutoff) {
+					os.Remove(p)
+				}
+			}
+			return nil
+		})
 	}
+}
+
+// ToolchainTrouble recognises compiler output that is about the build environment, not about the code being built
+// (a build cache entry that vanished, a full disk, a killed compiler): never a verdict about generated code.
+func ToolchainTrouble(out string) bool {
+	for _, s := range []string{"/gocache/", "could not import", "no space left on device", "cannot allocate memory", "signal: killed", "out of memory", "too many open files", "input/output error"} {
+		if strings.Contains(out, s) {
+			if s == "could not import" && !strings.Contains(out, "no such file or directory") && !strings.Contains(out, "gocache") {
+				continue
+			}
+			return true
+		}
+	}
+	return false
 }
